@@ -941,8 +941,8 @@ impl Expire {
 		let mut args = sanitize(&args, false);
 		if stage < 2 || role != 0 {
 			args.late_lock = false;
-		} else if c.k % 4 < 2 && !args.proof {
-			// half of the finalized sender cases are late-locked (reservation and log entry are made at finalize time)
+		} else if c.k % 4 != 3 && !args.proof {
+			// most finalized sender cases are late-locked (reservation and log entry are made at finalize time)
 			args.late_lock = true;
 		}
 		let b: Option<u64> = match c.b_sel % 7 {
@@ -998,7 +998,7 @@ impl Expire {
 						let s2 = receive_raw(&sim, X, &s1).map_err(|e| format!("X receive_tx: {}", e))?;
 						reached = 1;
 						if stage >= 2 {
-							if args.late_lock && c.k % 2 == 1 {
+							if args.late_lock && c.k % 8 != 0 {
 								// a late-locked send selects and reserves at finalize time: let the chain move on in between,
 								// the recorded cutoff must still be the one the slate carries
 								sim.mine(None, 0)?;
